@@ -31,6 +31,9 @@ ZERO_SOURCE = ((12, 9, 40), 32, (4, 4, -1), 2, 4.0, 'zero')
 DESC_SOURCE = ((10, 13, 40), 32, (8, 8, 16), 1, 4.0, 'desc')
 # six-digit line numbers (coordinate boxes resolved with a relative tolerance would land on a neighbouring line)
 BIG_SOURCE = ((16, 9, 40), 32, (4, 4, -1), 1, 4.0, 'big')
+# less than one bit per voxel (lengths in the header are whole disk blocks computed from a fractional rate), with stored header arrays
+SUB_SOURCE = ((9, 10, 30), 0.5, (4, 4, -1), 2)
+SUB_SOURCE_B = ((70, 9, 6), 0.25, (64, 64, 4), 1)
 
 
 def make_dup_source(d, k, seed):
@@ -248,7 +251,7 @@ def judge(run, S, mode, box, r, ev):
 def prepare(run):
     d = env.subdir('c10src')
     quick = run.tier == 'quick'
-    specs = (SOURCES[:7] if quick else SOURCES) + [ZERO_SOURCE, DESC_SOURCE, BIG_SOURCE]
+    specs = (SOURCES[:7] if quick else SOURCES) + [ZERO_SOURCE, DESC_SOURCE, BIG_SOURCE, SUB_SOURCE] + ([] if quick else [SUB_SOURCE_B])
     S = []
     for k, spec in enumerate(specs + ['dup', 'irr']):
         mask = None
